@@ -18,12 +18,12 @@ EXPECTED_KEYS = ("1.4", "1.5", "2.0", "2.1", "2.2")
 
 def run(ctx: Ctx, chk) -> None:
     chk.assume("A1", "A3", "A5")
-    table_v(ctx, chk)
-    select1(ctx, chk)
-    c03.state1(ctx, chk)
-    copies1(ctx, chk)
-    gate1(ctx, chk)
-    learn1(ctx, chk)
+    chk.run_rule(table_v, ctx)
+    chk.run_rule(select1, ctx)
+    chk.run_rule(c03.state1, ctx)
+    chk.run_rule(copies1, ctx)
+    chk.run_rule(gate1, ctx)
+    chk.run_rule(learn1, ctx)
 
 
 def vtuple(s: str):
